@@ -38,7 +38,7 @@ def _ground(a):
 class FirstOrderLift:
     """context: proxies + lifting wrapper installed on fords.simulators.simulate_frame"""
 
-    def __init__(self, ir, lift_rows, values=None, lift_where=None, shift=None, override=None):
+    def __init__(self, ir, lift_rows, values=None, lift_where=None, shift=None, override=None, chain=False):
         """
         lift_rows: names of dataslate rows whose non-NaN cells become symbols
         values:    {symbol name: shadow value}
@@ -56,6 +56,11 @@ class FirstOrderLift:
         self.proxy = npproxy.Proxy()
         self.caps = []
         self._ctx = None
+        # chain=True (simulations split into several frames): a cell computed by an earlier frame enters later frames as that TERM
+        # (not as a fresh symbol), and one lifted copy is kept per input_data_array object so that in-place changes persist across frames
+        self.chain = chain
+        self.known = {}
+        self._ida_cache = {}
 
     def __enter__(self):
         fs = self.fs
@@ -81,10 +86,25 @@ class FirstOrderLift:
             for (nm, k), term in outer.override.items():
                 if nm in names and 0 <= b0 + k < obj.shape[1]:
                     obj[names.index(nm), b0 + k] = term
+            if outer.chain:
+                for i, nm in enumerate(names):
+                    for j in range(obj.shape[1]):
+                        if (nm, j - b0) in outer.known and not (isinstance(obj[i, j], float) and math.isnan(obj[i, j])):
+                            obj[i, j] = outer.known[(nm, j - b0)]
+                        elif isinstance(obj[i, j], S.SReal) and float(data[i, j]) == 0.0:
+                            obj[i, j] = 0.0        # split frames zero the unanticipated shocks dated after the frame start: keep exact zeros concrete
             var.data = obj
-            if kw.get("input_data_array") is not None:
+            if kw.get("input_data_array") is not None and outer.chain and id(kw["input_data_array"]) in outer._ida_cache:
+                kw["input_data_array"] = outer._ida_cache[id(kw["input_data_array"])][1]
+            elif kw.get("input_data_array") is not None:
                 ida = kw["input_data_array"]
                 iobj, isyms = lift_matrix(ida, names, where=where, values=outer.values, col_label=label)
+                if outer.chain:
+                    outer._ida_cache[id(ida)] = (ida, iobj)          # keep `ida` alive so that its id stays unique
+                    for i in range(iobj.shape[0]):
+                        for j in range(iobj.shape[1]):
+                            if isinstance(iobj[i, j], S.SReal) and float(ida[i, j]) == 0.0:
+                                iobj[i, j] = 0.0
                 for i, nm in enumerate(names):
                     c = outer.shift.get(nm)
                     if c is not None:
@@ -103,6 +123,16 @@ class FirstOrderLift:
                 r = real(model_v, frame_ds, **kw)
                 cap["out"] = np.array(var.data, dtype=object)
                 outer.caps.append(cap)
+                if outer.chain:
+                    fr = kw.get("frame")
+                    # only the frame's own columns are written back to the main dataslate (frames.write_frame_data_to_main_dataslate)
+                    lo = getattr(fr, "first", 0)
+                    hi = getattr(fr, "last", cap["out"].shape[1] - 1)
+                    for i, nm in enumerate(names):
+                        for j in range(lo, min(hi, cap["out"].shape[1] - 1) + 1):
+                            a, b = cap["out"][i, j], cap["inp"][i, j]
+                            if a is not b and not (isinstance(a, float) and isinstance(b, float) and (a == b or (math.isnan(a) and math.isnan(b)))):
+                                outer.known[(nm, j - b0)] = a
             finally:
                 if "out" in cap:
                     var.data = S.shadow_float(cap["out"])
